@@ -5,12 +5,12 @@ MAGIC = 1993
 VERSION = b"GMX_trn_file"
 
 
-def encode_frame(natoms, step, time, lam, box=None, x=None, v=None, f=None, endian=">", double=False):
-    """One TRR frame as bytes. box: 9 floats or None; x/v/f: lists of natoms*3 floats or None."""
+def encode_frame(natoms, step, time, lam, box=None, x=None, v=None, f=None, endian=">", double=False, vir=None, pres=None):
+    """One TRR frame as bytes. box / vir / pres: 9 floats or None; x/v/f: lists of natoms*3 floats or None."""
     r = "d" if double else "f"
     rs = 8 if double else 4
     sizes = {
-        "ir": 0, "e": 0, "box": 9 * rs if box is not None else 0, "vir": 0, "pres": 0, "top": 0, "sym": 0,
+        "ir": 0, "e": 0, "box": 9 * rs if box is not None else 0, "vir": 9 * rs if vir is not None else 0, "pres": 9 * rs if pres is not None else 0, "top": 0, "sym": 0,
         "x": natoms * 3 * rs if x is not None else 0, "v": natoms * 3 * rs if v is not None else 0,
         "f": natoms * 3 * rs if f is not None else 0,
     }
@@ -21,8 +21,9 @@ def encode_frame(natoms, step, time, lam, box=None, x=None, v=None, f=None, endi
                        sizes["x"], sizes["v"], sizes["f"], natoms, step, 0)
     out += struct.pack(f"{endian}2{r}", time, lam)
     header_len = len(out)
-    if box is not None:
-        out += struct.pack(f"{endian}9{r}", *box)
+    for mat in (box, vir, pres):  # the order of the file format
+        if mat is not None:
+            out += struct.pack(f"{endian}9{r}", *mat)
     for arr in (x, v, f):
         if arr is not None:
             out += struct.pack(f"{endian}{natoms * 3}{r}", *arr)
